@@ -210,6 +210,7 @@ pub fn run(ctx: &mut Ctx) {
     let lmax = if ctx.slow_tool { 3 } else { tier.pick(6usize, 8usize) };
 
     if ctx.family_active("exh") {
+        ctx.set_enumerated(true);
         let mut base = 0u64;
         for l in 1..=lmax {
             let total = 10u64.pow(l as u32);
@@ -228,6 +229,7 @@ pub fn run(ctx: &mut Ctx) {
             }
             base += total;
         }
+        ctx.set_enumerated(false);
         ctx.sample("exh", || json!({"alphabet": hex(&SIGMA), "max_len": lmax, "start_offsets": "every offset of every buffer"}));
     }
 
